@@ -33,6 +33,7 @@ class SolverAnalysis:
         self.P = P
         self.runs = {}
         self.nruns = 0
+        self.faults = []
 
     def run(self, footprint, analytic, ctx="generic", halo="given", precision="double", levels_kind="array", cache=None, stubs=None):
         key = (footprint, analytic, ctx, halo, precision, levels_kind, cache is not None)
@@ -45,7 +46,17 @@ class SolverAnalysis:
 
     def returns(self, *a, **k):
         S, res = self.run(*a, **k)
+        for r in res:
+            if r.kind == "fault" and r.raise_desc not in self.faults:
+                self.faults.append(r.raise_desc)
         return S, [r for r in res if r.kind == "return"]
+
+    def fault_obs(self, rule="R-WELLDEF"):
+        """a path that divides by an identically zero quantity is a definite defect"""
+        site = "src/bldfm/solver.py::steady_state_transport_solver"
+        if not self.faults:
+            return [req_ob(rule, site, "no path divides by an identically zero quantity", True, nontrivial=False)]
+        return [req_ob(rule, site, "no path divides by an identically zero quantity", False, detail=f) for f in self.faults]
 
 
 # --------------------------------------------------------------------------
@@ -121,10 +132,15 @@ class PathView:
         return "src/bldfm/solver.py::steady_state_transport_solver::%s" % what
 
 
+class NoPath(AnalysisError):
+    pass
+
+
 def views(SA, footprint, analytic, ctx="generic", **kw):
     S, rets = SA.returns(footprint, analytic, ctx=ctx, **kw)
     if not rets:
-        raise AnalysisError("no returning path of the solver (footprint=%s analytic=%s ctx=%s)" % (footprint, analytic, ctx))
+        raise NoPath("no returning path of the solver (footprint=%s analytic=%s ctx=%s)%s" % (
+            footprint, analytic, ctx, "; faults: " + "; ".join(SA.faults) if SA.faults else ""))
     return S, [PathView(S, r) for r in rets]
 
 
@@ -265,7 +281,7 @@ def source_spec(v, footprint):
     if footprint:
         return ONE / N
     name = "dft0" if v.r.ctx == "mean" else "dft"
-    return alg.fn(name, S.srf_flx.sym, v.py, v.px, v.Ny, v.Nx) / N
+    return alg.fn(name, S.srf_flx.val, v.py, v.px, v.Ny, v.Nx) / N
 
 
 def second_ivp_initial(v):
@@ -343,3 +359,163 @@ def zero_tower(S):
 def event_obs(v, rule, kinds, what, site=None):
     ev = [e for e in v.r.events if e[0] in kinds]
     return req_ob(rule, site or v.site("whole function"), what, not ev, detail="; ".join("%s %s" % (e[1], e[2]) for e in ev[:4]) or None)
+
+
+# --------------------------------------------------------------------------
+# E2 on normal forms: units (dimensional homogeneity)
+
+
+class DimError(Exception):
+    pass
+
+
+def _dadd(a, b, k=1):
+    out = dict(a)
+    for u, e in b.items():
+        out[u] = out.get(u, 0) + e * k
+        if out[u] == 0:
+            del out[u]
+    return out
+
+
+def _dscale(a, k):
+    return {u: e * k for u, e in a.items() if e * k != 0}
+
+
+class Units:
+    """dimension vectors over (L, T, F) for the atoms of S-SIG; `dims(expr)`
+    checks that all terms agree and that transcendental arguments are pure numbers"""
+
+    def __init__(self, S, roles=None, footprint=False):
+        L, T, F = {"L": 1}, {"T": 1}, {"F": 1}
+        self.sym = {}
+        for x in (S.xmx, S.ymx, S.halo, S.xm, S.ym):
+            self.sym[atom_of(x).id] = L
+        for x in (S.nx, S.ny, S.nlx, S.nly, S.nz, S.nlev):
+            self.sym[atom_of(x).id] = {}
+        self.sym[atom_of(S.p000).id] = {"F": 1, "T": 1, "L": -1}
+        self.arr = {S.z.sym: L, S.u.sym: {"L": 1, "T": -1}, S.v.sym: {"L": 1, "T": -1}}
+        for K in (S.Kx, S.Ky, S.Kz):
+            self.arr[K.sym] = {"L": 2, "T": -1}
+        self.arr = {atom_of(k).id: v for k, v in self.arr.items()}
+        self.field = atom_of(S.srf_flx.sym).id
+        self.roles = roles
+        self.memo = {}
+
+    def atom(self, a):
+        if a.id in self.memo:
+            return self.memo[a.id]
+        d = self._atom(a)
+        self.memo[a.id] = d
+        return d
+
+    def _atom(self, a):
+        if a.kind == "sym":
+            if a.id in self.sym:
+                return self.sym[a.id]
+            if a.name in ("pi", "e", "iota", "delta_z") or a.name.startswith("basis") or a.name.startswith("i#"):
+                return {"L": 1} if a.name == "delta_z" else {}
+            if a.name.endswith("NUM_THREADS"):
+                return {}
+            raise DimError("no declared dimension for symbol %s" % a.name)
+        if a.kind in ("def", "base"):
+            return self.dims(a.args[0])
+        if a.kind == "fn":
+            n = a.name
+            if n in ("at", "elem"):
+                base = atom_of(a.args[0]).id if isinstance(a.args[0], Expr) else None
+                if base in self.arr:
+                    if n == "at" and self.dims(a.args[1]) != {}:
+                        raise DimError("dimensioned index in %r" % (a,))
+                    return self.arr[base]
+                return {}
+            if n in ("dft", "dft0", "idft", "idft0"):
+                for x in a.args[1:]:
+                    if self.dims(x) != {}:
+                        raise DimError("dimensioned size in %r" % (a,))
+                return {"F": 1}
+            if n in ("exp", "expi", "log", "sin", "cos", "arctan", "int", "fftidx", "idx", "mod", "floordiv", "count", "nunique", "ceil"):
+                for x in a.args:
+                    if isinstance(x, Expr) and self.dims(x) != {}:
+                        raise DimError("argument of %s is not a pure number: %r has %r" % (n, x, self.dims(x)))
+                return {}
+            if n in ("max", "min"):
+                ds = [self.dims(x) for x in a.args]
+                if any(d != ds[0] for d in ds):
+                    raise DimError("max/min of unlike quantities %r" % (a,))
+                return ds[0]
+            if n == "Phi":
+                r, c = int(a.args[1].as_const().re), int(a.args[2].as_const().re)
+                if self.dims(a.args[3]) != {}:
+                    raise DimError("dimensioned level in %r" % (a,))
+                if self.roles is None or r == c:
+                    return {}
+                return {"T": 1, "L": -1} if (r, c) == tuple(self.roles) else {"L": 1, "T": -1}
+            if n == "Sum":
+                return self.dims(a.args[0])
+            raise DimError("no dimension rule for %s" % n)
+        raise DimError("atom %r" % (a,))
+
+    def dims(self, x):
+        x = as_expr(x)
+        res = None
+        for m, c in x.n.items():
+            d = {}
+            for a, e in m:
+                da = self.atom(a)
+                if not isinstance(e, (int, Q)):
+                    if da:
+                        raise DimError("dimensioned quantity %r raised to a symbolic power" % (a,))
+                    continue
+                d = _dadd(d, da, e)
+            if res is None:
+                res = d
+            elif res != d:
+                raise DimError("sum of unlike quantities: %r vs %r in %s" % (res, d, repr(x)[:200]))
+        return res or {}
+
+
+def units_ob(U, rule, site, what, value, want):
+    try:
+        if not isinstance(value, Expr):
+            return req_ob(rule, site, what, None, detail="not algebraic: %r" % (value,))
+        got = U.dims(value)
+        return req_ob(rule, site, what + " has dimension %s" % (want or "1"), got == want, detail="got %r" % (got,) if got != want else None)
+    except DimError as e:
+        return req_ob(rule, site, what + " is dimensionally homogeneous", False, detail=str(e))
+
+
+# --------------------------------------------------------------------------
+# sigma: exchange of the x- and y-roles of S-SIG
+
+
+def sigma_map(S):
+    pairs = [(S.nx, S.ny), (S.xmx, S.ymx), (S.nlx, S.nly), (S.xm, S.ym), (S.u.sym, S.v.sym), (S.Kx.sym, S.Ky.sym)]
+    m = {}
+    for a, b in pairs:
+        m[atom_of(a)] = b
+        m[atom_of(b)] = a
+    return m
+
+
+def neutralise_source(x, S):
+    """replace the (transposition-covariant, S-NUMPY) source transform atoms by a symbol"""
+    if not isinstance(x, Expr):
+        return x
+    m = {}
+    for a in x.atoms():
+        if a.kind == "fn" and a.name in ("dft", "dft0"):
+            m[a] = alg.sym("Q_" + a.name)
+    return x.subs(m) if m else x
+
+
+def mirror_map(S, x, axis):
+    """(k_axis, wind_axis) -> -(k_axis, wind_axis) on the atoms of x"""
+    w = S.u.sym if axis == "x" else S.v.sym
+    m = {}
+    for a in x.atoms():
+        if a.kind == "fn" and a.name == "at" and a.args[0].eq(w):
+            m[a] = -alg.atom_expr(a)
+        if a.kind == "fn" and a.name == "fftidx" and a.args[0].eq(S.nlx if axis == "x" else S.nly):
+            m[a] = -alg.atom_expr(a)
+    return m
